@@ -347,7 +347,7 @@ def run(chk):
         check_r3_slots(chk, cfg, progs[cfg])
         # ring buffer hand-off: reuse C05's publication-order rules (R1.*) and single writer (R2.*)
         chk.rule_prefix = "ring."
-        chk.rule_filter = lambda r: r.startswith(("R1", "R2"))
+        chk.rule_filter = lambda r: r.startswith(("R1", "R2", "R3.index-width"))
         C05.run_config(chk, cfg)
         # receivep single owner: reuse C04.R6
         # receivep single owner (C04.R6); shared indices are only ever updated by read-modify-write, the send cursor is
